@@ -1,2 +1,116 @@
-(* placeholder while the model is validated *)
-From Delb.Xml Require Import Plain.
+(* C13 - namespace declarations in output are consistent and honour the caller.
+   Statements only; proofs are in Ns/NamespacesFacts.v, Ns/PrefixFacts.v, Xml/PlainFacts.v.
+
+   Model: Ns/Namespaces.v (Namespaces normalisation over the generated validator and tables), Ns/Prefixes.v
+   (Serializer._collect_prefixes over the generated _new_namespace_declaration; declarations of serialize_root),
+   Xml/Plain.v (what is written for attributes).  `ord` is the order in which CPython iterated each node's
+   set of namespaces: the theorems hold for every order, i.e. for every PYTHONHASHSEED.
+
+   The property is FALSE on the unchanged tree (C13_refuted): generated prefixes ns<i> ignore the caller's
+   mapping.  C13_partial is the property for callers without a prefix of the form ns<digits>
+   (decidable guard `no_generated_like`); the full statement, which a repaired
+   _new_namespace_declaration would satisfy, is
+
+     Theorem C13 : forall t caller ord, is_tag t = true -> valid_caller caller ->
+       order_ok (bfs_of t) ord -> (N.of_nat (n_namespaces t) < 2 ^ 16)%N ->
+       exists pm, collect caller (root_ns_of t) ord = Ok pm /\ c13_clauses caller (tree_nss t) pm.       *)
+From Coq Require Import List NArith Bool.
+From Delb.Base Require Import PyStr PyDict.
+From Delb.Gen Require Import GenNames GenNs.
+From Delb.Tree Require Import ATree.
+From Delb.Ns Require Import Namespaces NamespacesFacts Prefixes PrefixFacts.
+From Delb.Xml Require Import Plain PlainFacts.
+Import ListNotations.
+
+(* the generated loop bound is the one the statement speaks about *)
+Theorem C13_bound : new_namespace_declaration_bound = (2 ^ 16)%N.
+Proof. reflexivity. Qed.
+Print Assumptions C13_bound.
+
+(* for all trees, caller mappings without ns<digits> prefixes and iteration orders, with fewer than 2^16
+   namespaces: prefix collection succeeds (no AssertionError, no NotImplementedError) and the table
+   covers / is injective / keeps the empty namespace un-prefixed and un-defaulted / honours the caller's
+   non-empty prefixes / leaves xml and xmlns alone (c13_clauses, Ns/Prefixes.v) *)
+Theorem C13_partial : forall t caller ord,
+  is_tag t = true -> valid_caller caller -> no_generated_like caller = true ->
+  order_ok (bfs_of t) ord -> (N.of_nat (n_namespaces t) < 2 ^ 16)%N ->
+  exists pm, collect caller (root_ns_of t) ord = Ok pm /\ c13_clauses caller (tree_nss t) pm.
+Proof.
+  intros t caller ord H1 H2 H3 H4 H5.
+  destruct (collect_tree_clauses t caller ord H1 H2 H3 H4 H5) as [data [pm [_ [E [_ C]]]]].
+  exists pm. exact (conj E C).
+Qed.
+Print Assumptions C13_partial.
+
+(* declarations only on the root: an element's own attributes (named as the API admits) are never written
+   under a key that reads as a declaration; the xmlns attributes come from declared_attributes, which only
+   render_root (serialize_root) uses *)
+Theorem C13_declarations_only_on_root : forall t caller ord,
+  is_tag t = true -> valid_caller caller -> no_generated_like caller = true -> caller_prefixes_colon_free caller ->
+  order_ok (bfs_of t) ord -> (N.of_nat (n_namespaces t) < 2 ^ 16)%N ->
+  exists pm, collect caller (root_ns_of t) ord = Ok pm /\
+    forall attrs, Forall attr_name_ok attrs ->
+    forall k, In k (dict_keys (generate_attributes_data pm attrs)) -> is_decl_key k = false.
+Proof.
+  intros t caller ord H1 H2 H3 CF H4 H5.
+  destruct (collect_tree_clauses t caller ord H1 H2 H3 H4 H5) as [data [pm [EN [E [HI C]]]]].
+  exists pm. split; [exact E|]. intros attrs HA.
+  exact (own_attributes_never_declare caller data pm (tree_nss t) attrs (normalize_ok _ _ EN) CF HI C HA).
+Qed.
+Print Assumptions C13_declarations_only_on_root.
+
+(* every iteration order is admissible input; the deterministic one exists *)
+Theorem C13_order_exists : forall t, order_ok (bfs_of t) (default_order (bfs_of t)).
+Proof. exact (fun t => default_order_ok (bfs_of t)). Qed.
+Print Assumptions C13_order_exists.
+
+(* ---- the refutation: <r><a xmlns="u1"><b xmlns="u2"/></a></r> with namespaces={"ns0": "u2"} ---------- *)
+Definition c13_witness_tree : node :=
+  Tag [] [114%N] [] [Tag [117; 49]%N [97%N] [] [Tag [117; 50]%N [98%N] [] []]].
+Definition c13_witness_caller : caller_map := [(Some [110; 115; 48]%N, [117; 50]%N)].
+
+Theorem C13_refuted : exists t caller ord,
+  is_tag t = true /\ valid_caller caller /\ order_ok (bfs_of t) ord /\ (N.of_nat (n_namespaces t) < 2 ^ 16)%N /\
+  collect caller (root_ns_of t) ord = Crash AssertionError.
+Proof.
+  exists c13_witness_tree, c13_witness_caller, (default_order (bfs_of c13_witness_tree)).
+  split; [reflexivity|]. split.
+  - split; [repeat constructor; intros []|]. eexists. vm_compute. reflexivity.
+  - split; [apply default_order_ok|]. split; vm_compute; reflexivity.
+Qed.
+Print Assumptions C13_refuted.
+
+(* the witness is excluded by the guard, and only by the guard *)
+Example C13_witness_guard : no_generated_like c13_witness_caller = false.
+Proof. reflexivity. Qed.
+
+(* non-vacuity: a tree with a default namespace, an un-namespaced child, a prefixed attribute, the xml
+   namespace, and a caller mapping with a default and a prefix satisfies every hypothesis of C13_partial;
+   the table that results *)
+Definition c13_example_tree : node :=
+  Tag [117; 49]%N [114%N] [(xml_ns, [108; 97; 110; 103]%N, [101; 110]%N)]
+      [Tag [] [97%N] [([117; 50]%N, [107%N], [118%N])] []; Tag [117; 51]%N [98%N] [] []].
+Definition c13_example_caller : caller_map := [(None, [117; 49]%N); (Some [112%N], [117; 50]%N)].
+Example C13_example :
+  is_tag c13_example_tree = true /\ valid_caller c13_example_caller /\ no_generated_like c13_example_caller = true
+  /\ caller_prefixes_colon_free c13_example_caller
+  /\ (N.of_nat (n_namespaces c13_example_tree) < 2 ^ 16)%N
+  /\ collect c13_example_caller (root_ns_of c13_example_tree) (default_order (bfs_of c13_example_tree))
+     = Ok [([117; 49]%N, [110; 115; 48; 58]%N); (xml_ns, [120; 109; 108; 58]%N); ([], []);
+           ([117; 50]%N, [112; 58]%N); ([117; 51]%N, [110; 115; 49; 58]%N)].
+Proof.
+  split; [reflexivity|]. split.
+  - split; [repeat constructor; cbn; intuition discriminate|]. eexists. vm_compute. reflexivity.
+  - split; [reflexivity|]. split.
+    + intros k n [H|[H|[]]]; injection H as <- <-; unfold colon_free, COLON; cbn; intuition discriminate.
+    + split; vm_compute; reflexivity.
+Qed.
+
+(* the name hypothesis of C13_declarations_only_on_root is needed: the API accepts an attribute whose local
+   name is "xmlns", and it is written as a declaration (finding C13-attribute-named-xmlns) *)
+Theorem C13_attribute_named_xmlns_refuted : exists (pm : pmap) attrs k,
+  In k (dict_keys (generate_attributes_data pm attrs)) /\ is_decl_key k = true.
+Proof.
+  exists [([], [])], [([], XMLNS_, [118%N])], XMLNS_. split; [left; reflexivity | reflexivity].
+Qed.
+Print Assumptions C13_attribute_named_xmlns_refuted.
